@@ -4,6 +4,7 @@
 From Coq Require Import List Ascii NArith ZArith Bool.
 Import ListNotations.
 Require Import Bytes Mach RuleTables RuleDecode Mask RuleEncode Uapi UapiRule Tables TablesLift RuleTablesOk RuleWire RuleSpecWf.
+Require Import RuleValue Flags RuleBuild RuleBuildShape.
 Open Scope N_scope.
 
 (* every field and operator code of the rule package equals the UAPI constant for the
@@ -62,6 +63,17 @@ Proof.
 Qed.
 
 (* the syscall mask has exactly the requested bits *)
+(* what Build makes of a parsed syscall-rule line: one field / operator / value triple per filter in the
+   order given (codes from the tables, numeric values through the value parsers, string values as
+   their length with the string appended to the buffer), followed by the joined keys *)
+Theorem C06_one_triple_per_filter : forall li ac fs scs keys s d,
+  spec_of_prule li ac fs scs keys = Some s -> data_of_spec s = Some d ->
+  exists l, length l = length fs /\ Forall2 triple_spec fs l /\
+    w_triples d = map fst l ++ (match keys with [] => [] | _ => [(210, 1073741824, N.of_nat (length (join_keys keys)))] end) /\
+    w_strings d = flat_map snd l ++ (match keys with [] => [] | _ => [join_keys keys] end) /\
+    list_code (sos li) = Some (w_flags d) /\ action_code (sos ac) = Some (w_action d).
+Proof. exact build_shape. Qed.
+
 Theorem C06_mask_exact : forall l m' k, build_mask (repeat 0 64) l = Some m' -> (testbit_mask m' k = true <-> In k l).
 Proof. exact build_mask_exact. Qed.
 (* and a number beyond the mask is an error, never a bit somewhere else *)
@@ -73,5 +85,6 @@ Print Assumptions C06_layout.
 Print Assumptions C06_wire_exact.
 Print Assumptions C06_accepted_rules_are_well_formed.
 Print Assumptions C06_accepted_rules_decode.
+Print Assumptions C06_one_triple_per_filter.
 Print Assumptions C06_mask_exact.
 Print Assumptions C06_mask_range.
